@@ -476,7 +476,9 @@ class Check:
             is_stretch = base in stretch
             if is_stretch:
                 s.stats['stretch_attempted'] += 1
-            worst = max(worst, r['time'])
+            if r['time'] > worst:
+                worst = r['time']
+                s.harness_info[h]['slowest'] = '%s leaf %d (%s %.1fs)' % (ob['id'], ob['leaf'], r.get('solver'), r['time'])
             for g, c in r.get('axioms', {}).items():
                 s.axiom_groups[g] = s.axiom_groups.get(g, 0) + c
             if r['result'] == 'unsat':
